@@ -7,7 +7,8 @@ LEVEL = ("bounded symbolic execution of the repository's own functions on z3 pro
          "explored path: within the stated instantiation family and integer ranges the solver's verdict covers every value of "
          "the symbolic inputs; counterexamples are replayed on the unpatched code (plain interpreter, independent concrete oracle) "
          "before being reported; the encoding is validated on every run by executing the real code on solver-chosen (also "
-         "boundary-biased) inputs and comparing with SX's prediction; a sample of final queries is re-decided by cvc5. Nothing is "
+         "boundary-biased) inputs and comparing with SX's prediction, first from a fresh process state and then again in groups without "
+         "any reset in between (call-history pass, judged by the same concrete oracle; DESIGN.md M12); a sample of final queries is re-decided by cvc5. Nothing is "
          "claimed outside the bounds recorded in evidence. %s")
 CHECKS = {
  "C09": ("§3 C09", "symbolic: arguments of one call (dictionaries over all ids incl. sub-proposition and top ids), thresholds/signs/boxes; cache key (hash and equality) of two configurators with independent symbolic item boxes; instantiated: models, operations", "M4, M5, M6, M7, M10; one inductive step from the freshly built object; open known finding assume-mutates-named-subproposition excluded as a class"),
@@ -16,9 +17,9 @@ CHECKS = {
  "C16": ("§3 C16", "symbolic: thresholds, explicit signs, integer-leaf boxes, leaf values (dict-level round trip); json.dumps/loads leg on concrete representatives; instantiated: skeletons, configurators, str vs variable leaves", "M4, M5, M6, M9; open known findings excluded as classes"),
  "C15": ("§3 C15", "symbolic: objective presence flags and weights (incl. foreign ids), the solver answer (one integer per column), priority values; instantiated (M7): models, configurators, answer kind; exact-solver clause concrete per instantiation with z3 optimiser plugged in", "M1, M4, M7, M8, M10; the harness is the solver callable"),
  "C14": ("§3 C14", "symbolic: priority values (<=3 ids), two 0/1 configurations over all columns constrained to the polyhedron; instantiated (M7): configurator models, prioritised-id subsets", "M1, M7, M8; lexicographic key written in the harness from the configurator spec"),
- "C13": ("§3 C13", "symbolic: every array entry (|p|<=50; the path decides sign, zero-ness and weak order); instantiated: shapes, axes, methods", "M1 numpy shim; M8: real FFI on two representatives per call under the contract that its output depends only on weak order and signs"),
+ "C13": ("§3 C13", "symbolic: every array entry (|p|<=50; the path decides sign, zero-ness and weak order); instantiated: shapes, axes, methods, earlier compressions of the same or of look-alike arrays", "M1 numpy shim; M8: real FFI on two representatives per call under the contract that its output depends only on weak order and signs"),
  "C20": ("§3 C20", "symbolic: dictionary presence flags and values, variable boxes, 0/1 entries, matrix entries, list membership flags; instantiated: id lists, dtypes, default kind", "M1, M4, M10; for from_list ids are concrete strings and only membership/position is symbolic (thin solver share, stated)"),
- "C19": ("§3 C19", "symbolic: matrix entries, right-hand sides, all point coordinates (fully symbolic up to 2x2, concrete matrices beyond); instantiated: shapes, points.ndim, function", "M1 numpy object-dtype shim, M3; QF_NIA queries share product terms with the oracle"),
+ "C19": ("§3 C19", "symbolic: matrix entries, right-hand sides, all point coordinates (fully symbolic up to 2x2, concrete matrices beyond, incl. a wide-value family with row sums above 2^53 inside int64); instantiated: shapes, points.ndim, function", "M1 numpy object-dtype shim, M3; QF_NIA queries share product terms with the oracle"),
  "C11": ("§3 C11", "symbolic: right-hand sides, variable boxes, an in-box point (also used as witness for the reduced system); instantiated: coefficient patterns, box families; fix-point loop unrolled by execution", "M1, M2, M3 (numpy shim differentially validated on every run); forced values unique so no quantifier alternation"),
  "C12": ("§3 C12", "symbolic: right-hand sides, variable boxes (16-bit), a point; instantiated: coefficient patterns (<=3x3, entries -3..3), box families", "M1 numpy object-dtype shim, M2 exact rational model of float division, M3 no int64 overflow in range; each validated differentially against real int64 numpy on every run"),
  "C02": ("§3 C02", "symbolic: all leaf values and all auxiliary columns within bounds; instantiated (M7): skeletons, thresholds, boxes, negation route", "M7 real FFI on concrete model parameters; reference truth function written in the harness; converse only asked for solver-safe skeletons"),
